@@ -98,7 +98,7 @@ def lazy(sym, name, N, nsym):
             # consulting the header of the new view (what natural joins, record* set operations and the *all functions do
             # at construction) reads no data row beyond the catalogued look-ahead
             for v0 in _views(res, kind):
-                if kind in ('table', 'pair'):
+                if kind in ('table', 'pair') and not opts.get('header_is_data'):
                     petl.header(v0)
                     petl.convertall(v0, str)
                     petl.fieldnames(v0)
